@@ -144,11 +144,15 @@ class GarbageCollector:
         if protected_files:
             logger.info(f"Protecting {len(protected_files)} in-flight files from GC")
 
-        # 4. List all files in storage and delete orphans
+        # 4. List BOTH prefixes and classify every listed path before the first
+        # delete, so that a listing failure or an untrustworthy listing aborts
+        # the run without having deleted anything.
+        data_listing = self._list_prefix("data")
+        manifest_listing = self._list_prefix(self.file_manager.manifests_path)
 
         # GC Data Files
-        stats["data_files"] = self._gc_prefix(
-            "data", reachable_data_files | protected_files, grace_period_ms
+        stats["data_files"] = self._gc_listed(
+            "data", data_listing, reachable_data_files | protected_files, grace_period_ms
         )
 
         # GC Manifests (files in the real manifests directory that are NOT
@@ -156,8 +160,9 @@ class GarbageCollector:
         # progress has written its manifests before the metadata that makes
         # them reachable.
         all_reachable_manifests = reachable_manifests.union(reachable_manifest_lists)
-        stats["manifest_files"] = self._gc_prefix(
+        stats["manifest_files"] = self._gc_listed(
             self.file_manager.manifests_path,
+            manifest_listing,
             all_reachable_manifests | protected_files,
             grace_period_ms,
         )
@@ -240,18 +245,20 @@ class GarbageCollector:
             return legacy
         return {self._normalize_path(target)}
 
-    def _gc_prefix(self, prefix: str, reachable_set: Set[str], grace_period_ms: int) -> int:
-        """Garbage collect files in a specific prefix."""
-        deleted_count = 0
-        cutoff_time = (time.time() * 1000) - grace_period_ms
+    def _list_prefix(self, prefix: str) -> "list[tuple[str, str]]":
+        """List a prefix and classify every entry: [(listed path, comparison key)].
 
+        Raises GarbageCollectionAborted if the listing fails or contains a path
+        outside the table root - before anything has been deleted.
+        """
         try:
             all_files = self.storage.list_files(prefix)
         except Exception as e:
             raise GarbageCollectionAborted(
-                f"Aborting GC: cannot list files under {prefix}: {e}"
+                f"Aborting GC: cannot list files under {prefix}: {e}. Nothing was deleted."
             ) from e
 
+        listing = []
         for file_rel_path in all_files:
             norm_path = self._normalize_path(file_rel_path)
 
@@ -262,9 +269,24 @@ class GarbageCollector:
             if norm_path == ".." or norm_path.startswith("../"):
                 raise GarbageCollectionAborted(
                     f"Aborting GC: storage listing under '{prefix}' returned a path outside "
-                    f"the table root ({file_rel_path!r}). Reachability cannot be determined."
+                    f"the table root ({file_rel_path!r}). Reachability cannot be determined. "
+                    f"Nothing was deleted."
                 )
+            listing.append((file_rel_path, norm_path))
+        return listing
 
+    def _gc_listed(
+        self,
+        prefix: str,
+        listing: "list[tuple[str, str]]",
+        reachable_set: Set[str],
+        grace_period_ms: int,
+    ) -> int:
+        """Delete the listed files that are unreachable, unprotected and old enough."""
+        deleted_count = 0
+        cutoff_time = (time.time() * 1000) - grace_period_ms
+
+        for file_rel_path, norm_path in listing:
             if norm_path not in reachable_set:
                 # Potential orphan. Check age.
                 try:
